@@ -152,8 +152,10 @@ func (eval Evaluator) ShallowCopy() *Evaluator {
 
 // WithKey creates a shallow copy of this [Evaluator] in which the read-only data-structures are
 // shared with the receiver but the evaluation key is set to the provided [rlwe.EvaluationKeySet].
+// The temporary buffers are shared as well: the receiver and the returned evaluator cannot be used concurrently.
 func (eval Evaluator) WithKey(evk rlwe.EvaluationKeySet) *Evaluator {
 	return &Evaluator{
+		ScaleInvariant:   eval.ScaleInvariant,
 		evaluatorBase:    eval.evaluatorBase,
 		Evaluator:        eval.Evaluator.WithKey(evk),
 		evaluatorBuffers: eval.evaluatorBuffers,
